@@ -43,3 +43,5 @@ pub mod kaliski;
 pub use kaliski::*;
 pub mod dividers;
 pub use dividers::*;
+pub mod pm1;
+pub use pm1::*;
